@@ -180,6 +180,19 @@ class C05(Prop):
             )
         return out
 
+    def shrink_extra(self, plan, test):
+        """Keep a single failing variant."""
+        import copy
+
+        if len(plan.get("variants", [])) <= 1:
+            return plan
+        for v in plan["variants"]:
+            cand = copy.deepcopy(plan)
+            cand["variants"] = [v]
+            if test(cand):
+                return cand
+        return plan
+
     def abstract(self, run):
         from ..engine import abstract_trace
 
